@@ -8,6 +8,7 @@ import (
 	"context"
 	"errors"
 	"fmt"
+	"google.golang.org/protobuf/types/known/emptypb"
 	"io"
 	"net/url"
 	"runtime"
@@ -1139,6 +1140,14 @@ func (r *Run) runClientOps(who string, st grpc.ClientStream, ops []Op) {
 				m = r.recvd(false, m)
 			}
 			r.rec(Event{Who: who, Op: "recv", Msg: m, Err: err, Pan: pan})
+		case "recv-wrong":
+			// a receive that fails on the client's own side: the destination is a message of another type, which
+			// the channel's cloner refuses (as any Cloner may refuse a copy). It counts as a started receive.
+			r.RecvStarted.Add(1)
+			r.rec(Event{Who: who, Op: "recv-wrong", Call: true})
+			var err error
+			pan := guard(func() { err = st.RecvMsg(new(emptypb.Empty)) })
+			r.rec(Event{Who: who, Op: "recv-wrong", Err: err, Pan: pan})
 		case "recvall": // receive until an error (incl. io.EOF)
 			for n := 0; ; n++ {
 				if n > recvAllLimit {
